@@ -4,6 +4,7 @@ import GlueVerif.Lemmas.CoordsClosure
 import GlueVerif.Lemmas.CoordsViews
 import GlueVerif.Lemmas.CoordsLinks
 import GlueVerif.Lemmas.C15Scale
+import GlueVerif.Lemmas.C15History
 import GlueVerif.Model.C15Float
 /-!
 # C15 — world coordinates, their links and inverses agree with the coordinate object
@@ -242,6 +243,76 @@ example : Flt.geppW 2 [[1 / 8589934592, 0, 1 / 2097152], [0, 1, 0], [0, 0, 1]]
     Flt.fwdTol cTiny 0 [2, 0] = 0 ∧
     Flt.invTol (Flt.invCtx cTiny) 0 (cTiny.p2w [2, 0]) [0, 0] < 1 / 8589934592 ∧
     Flt.fwdTol cTiny 0 [1 / 3, 0] > 0 ∧ Flt.rangeOk cTiny = true := by decide +kernel
+
+/-! ## histories on one dataset object (round-3 strengthening)
+
+The property quantifies over every dataset **state**, including the states reached by mutation:
+`update_values_from_data` (new shape, same / equal / other / no coordinate object), assignment to
+`data.coords`, `update_components`, adding and removing other components.  `CoordData` = (shape,
+coords) is the part of the state the world components and links may depend on, `HOp` the operations,
+`Impl.run` / `Spec.run` the observations of all reads of a history (`Model/C15History.lean`).
+The obligation on the code is: **no value computed from an earlier (shape, coords) may survive a
+change of either** — the model of the tree under test recomputes every read from the current state,
+and the differential check runs such histories against the real `Data` object. -/
+
+/-- **Full theorem**: for every initial state and every history of reads (world components,
+pixel→world and world→pixel links, any view) and mutations, in which every state is a possible one
+(`histOk`: no coordinates, or a well-formed coordinate object of the dataset's dimension; reads
+address existing axes), the observations of the tree under test are those the property demands:
+each read is the transformation of the *current* coordinate object applied to the *current* pixel
+grid, then the view — same shapes, same values, same `IndexError`s.  Any length, any dimension. -/
+theorem world_eq_direct_history (s : CoordData) (ops : List HOp) (h : histOk s ops = true) :
+    Impl.run s ops = Spec.run s ops :=
+  Lemmas.Coords.runWith_impl_eq_spec s ops h
+
+/-- The same, with the "current state" spelled out: a world read after *any* prefix `pre` observes
+`Spec.worldView` of the coordinates and the shape that `pre` leaves behind (`foldl apply`) — nothing
+else of `pre` matters. -/
+theorem history_read_current_state (s : CoordData) (pre : List HOp) (a : Nat) (v : View)
+    (h : histOk s (pre ++ [.readWorld a v]) = true) :
+    Impl.run s (pre ++ [.readWorld a v]) =
+      Spec.run s pre ++
+        [(pre.foldl CoordData.apply s).coords.map fun c =>
+          Spec.worldView c (pre.foldl CoordData.apply s).shape a v] := by
+  rw [world_eq_direct_history s _ h]
+  simp [Spec.run, Lemmas.Coords.runWith_append, runWith, readOp, Spec.readers]
+
+/-- Shapes of the observations of a history (`[]` for "no coordinates" / an error). -/
+def obsShapes (os : List Obs) : List (List Nat) :=
+  os.map fun o => match o with
+    | some (.ok a) => a.shape
+    | _ => []
+
+/-- read → `update_values_from_data` (same coordinates, shape 2×3 → 3×2) → read → `coords = …` → read. -/
+def hRefresh : List HOp :=
+  [.readWorld 0 .all, .update [3, 2] (some cPerm), .readWorld 0 .all, .readWorld 0 (.basic [.int 2]),
+   .setCoords (some cTri), .readWorld 0 .all, .readP2W 1 .all, .setCoords none, .readWorld 0 .all]
+
+example : histOk ⟨[2, 3], some cPerm⟩ hRefresh = true := by decide +kernel
+example : obsShapes (Impl.run ⟨[2, 3], some cPerm⟩ hRefresh) = [[2, 3], [3, 2], [2], [3, 2], [3, 2], []] ∧
+    (Impl.run ⟨[2, 3], some cPerm⟩ hRefresh).map (fun o => o.map dataOf) =
+      [some [2, 5, 8, 2, 5, 8], some [2, 5, 2, 5, 2, 5], some [2, 5], some [0, 0, 1, 1, 2, 2],
+       some [0, 1, 1, 2, 2, 3], none] := by decide +kernel
+
+/-- **Witness** (seeded change C15c): a `CoordinateComponent` that keeps the world values of the full
+pixel grid from its first non-optimised read, and is only re-created when `coords` is assigned,
+violates `world_eq_direct_history`: after `update_values_from_data` to a dataset of shape 3×2 with the
+same coordinate object, `data[world_cid]` still has shape 2×3 and the values of the old grid, and a
+full-shape mask raises `IndexError`, while the scalar view (optimised branch) is computed afresh. -/
+theorem cached_grid_survives_shape_change :
+    let s : CoordData := ⟨[2, 3], some cPerm⟩
+    let h : List HOp := [.readWorld 0 .all, .update [3, 2] (some cPerm), .readWorld 0 .all,
+      .readWorld 0 (.mask [true, false, false, false, false, true]), .readWorld 0 (.basic [.int 2])]
+    histOk s h = true ∧
+    obsShapes (Cached.run ⟨s, []⟩ h) = [[2, 3], [2, 3], [2], [2]] ∧
+    obsShapes (Spec.run s h) = [[2, 3], [3, 2], [2], [2]] ∧
+    (Cached.run ⟨s, []⟩ h).map (fun o => o.map dataOf) =
+      [some [2, 5, 8, 2, 5, 8], some [2, 5, 8, 2, 5, 8], some [2, 8], some [2, 5]] ∧
+    (Spec.run s h).map (fun o => o.map dataOf) =
+      [some [2, 5, 8, 2, 5, 8], some [2, 5, 2, 5, 2, 5], some [2, 5], some [2, 5]] ∧
+    Impl.run s h = Spec.run s h := by
+  refine ⟨by decide +kernel, by decide +kernel, by decide +kernel, by decide +kernel, by decide +kernel, ?_⟩
+  exact world_eq_direct_history _ _ (by decide +kernel)
 
 /-! ## witnesses: the pinned tree violates the property (finding F8) -/
 
